@@ -89,4 +89,7 @@ F33part == MkT(O3, S3, <<<<1, 0, 2>>, <<0, 3, 4>>, <<5, 6, 0>>>>,
                MdRows(<< <<L1("taxonomy", <<"p", "q">>)>>, <<S1("k1", "x")>>, <<L1("taxonomy", <<"q">>)>> >>), NoMd, "", "")
 F24frac == [MkT(O2, <<"s1", "s2", "s3", "s4">>, <<<<1, 0, 0, 2>>, <<0, 3, 0, 0>>>>, OMDtax, NoMd, "Ortholog table", "")
             EXCEPT !.mat = <<<<<<1, 2>>, Zero, Zero, <<-3, 4>>>>, <<Zero, <<5, 8>>, Zero, Zero>>>>]
+T23idext == Mk(<<"o1", "o2~0">>, S3, <<<<3, 1, 0>>, <<0, 5, 6>>>>, OMD2, NoMd, "OTU table")   \* an ID that extends another
+S10 == <<"s1", "s2", "s3", "s4", "s5", "s6", "s7", "s8", "s9", "t1">>
+W2x10 == MkT(O2, S10, <<<<1, 0, 2, 0, 3, 0, 4, 0, 5, 6>>, <<0, 7, 0, 8, 0, 9, 0, 1, 2, 3>>>>, NoMd, NoMd, "OTU table", "")
 =============================================================================
